@@ -16,7 +16,8 @@ SPEC = dict(
     assumptions=[
         "exported-H mode: hinge columns (getHCol), body origins/orientations and the per-mobilizer Coriolis increment "
         "(getMobilizerCoriolisAcceleration) are taken from the implementation; that H, HDot are the right functions of q is "
-        "C03/C05's subject (C04 checks it only through the finite-difference predicate bias = d/dt(J) u)",
+        "C03/C05's subject (C04 checks it only through the finite-difference predicate bias = d/dt(J) u, judged per body: a body is "
+        "under a known-defect key only if a defective mobilizer lies on its own inboard path)",
         "the flat generalized-speed layout (u0, dof per body) is exported; theorems with flat vectors assume blocks inside [0,n) "
         "and distinct body indices (checked facts of every exported tree)"],
 )
